@@ -24,7 +24,7 @@ ASSUMPTIONS = [
     "registrations spell each table/column name one way per history (lookups vary the spelling), so the model dict is unambiguous",
 ]
 SPEC = {
-    "quick": {"shards": 16, "time_cap": 90, "exh_len": 3, "random": 6000},
+    "quick": {"shards": 16, "time_cap": 400, "exh_len": 3, "random": 6000},
     "thorough": {"shards": 16, "time_cap": 600, "exh_len": 4, "random": 120000},
 }
 
